@@ -54,8 +54,11 @@ def write(pid, mod, tier, seed, acc, wall, n_unknown, known, src):
         pass
     except Exception as e:  # still write what was measured; never invent numbers to satisfy the schema
         print(f"WARNING: evidence for {pid} does not validate against the schema: {str(e).splitlines()[0]}")
-    os.makedirs(os.path.join(VERIF, "evidence"), exist_ok=True)
-    out = os.path.join(VERIF, "evidence", f"{pid}.json")
+    # evidence/ only ever holds runs against /repo itself; runs against a scratch source root
+    # (VERIF_SRC, used by the mutation work) go to the ignored .scratch/ directory
+    sub = "evidence" if os.path.realpath(src) == os.path.realpath("/repo") else os.path.join(".scratch", "evidence")
+    os.makedirs(os.path.join(VERIF, sub), exist_ok=True)
+    out = os.path.join(VERIF, sub, f"{pid}.json")
     with open(out, "w") as f:
         json.dump(ev, f, indent=1, sort_keys=True)
     return out
